@@ -308,6 +308,8 @@ class Interp:
         if isinstance(v, VList):
             if v.obj.items is not None:
                 return len(v.obj.items) > 0
+            if getattr(v.obj, "nonempty", False):
+                return True
             return None
         if isinstance(v, VTuple):
             return len(v.items) > 0
@@ -1181,6 +1183,10 @@ class Interp:
                 if isinstance(it, VList) and it.obj.items is None and getattr(it.obj, "comp_iter", None) is not None:
                     ci = it.obj.comp_iter  # a map over a comprehension-built list runs over what that comprehension ran over
                 self._last_comp_iter = ci
+                # over range(0, <a dimension of a tensor>, step): at least one iteration (the data the properties quantify over
+                # have at least one row / site)
+                self._last_comp_nonempty = bool(isinstance(it, VRange) and const_of(it.start) == (True, 0) and isinstance(it.stop, VNum) and getattr(it.stop, "pos", False)
+                                                and getattr(it.stop, "dim", None) is not None and getattr(it.stop, "dim", None) != UNK and len(gens) == 1 and not g.ifs)
                 # an order- and count-preserving map over one iterable: remember which
                 self._last_comp_src = it if len(gens) == 1 and not g.ifs else None
                 self.assign(g.target, self.loop_elem(it, False, node), node)
@@ -1234,6 +1240,7 @@ class Interp:
             lv.obj.comp_node = node
             lv.obj.comp_iter = self._last_comp_iter
             lv.obj.comp_src = getattr(self, "_last_comp_src", None)
+            lv.obj.nonempty = getattr(self, "_last_comp_nonempty", False)
         return lv
 
     def ev_GeneratorExp(self, node):
